@@ -226,6 +226,7 @@ def run(chk):
                 chk.violation({"kind": "reassembly-bound", "what": "reassembly buffer exceeded its limits: %s" % fr, "seed": chk.seed})
     finally:
         shutil.rmtree(wd, ignore_errors=True)
+    heap_part(chk, binary)
     chk.parts["hostile"] = stats
     i = len(cases) // 2
     chk.sample({"case": cases[i]["name"], "result": {k: rows[i].get(k) for k in ("injected", "emitted", "queueMax", "quiet", "targetAlive", "completed", "pingPong", "sample")}})
@@ -239,9 +240,45 @@ def run(chk):
                         "load-sensitive outcomes are re-run alone twice before they count"]
 
 
+def heap_rows(binary):
+    wd = vlib.scratch("c08h")
+    try:
+        out = os.path.join(wd, "heap.json")
+        rc, txt = vlib.run_test(binary, "TestVerifC08Heap", {"VERIF_OUT": out, "GOMAXPROCS": "4"}, timeout=600)
+        if rc != 0 or not os.path.exists(out):
+            raise vlib.Inconclusive("heap harness failed: " + txt[-1500:])
+        return json.load(open(out))
+    finally:
+        shutil.rmtree(wd, ignore_errors=True)
+
+
+def heap_part(chk, binary):
+    """Memory RETAINED after hostile datagrams that announce large objects (measured heap, after two collections)."""
+    rows = heap_rows(binary)
+    over = [r for r in rows if not r.get("lab") and r["growthKB"] > r["limitKB"]]
+    if over:   # a measurement: confirm it once more before it counts
+        again = {r["name"]: r for r in heap_rows(binary)}
+        over = [r for r in over if again.get(r["name"], {}).get("growthKB", 0) > r["limitKB"]]
+    for r in rows:
+        chk.evaluated(key="heap:" + r["name"])
+        if r.get("lab"):
+            raise vlib.Inconclusive("heap case %s could not run: %s" % (r["name"], r["lab"]))
+    for r in over:
+        chk.violation({"kind": "memory-retained", "heap": r,
+                       "what": "%d hostile datagrams announcing 16 MiB messages / future epochs left %d KB on the heap (bound %d KB)" %
+                               (r["injected"], r["growthKB"], r["limitKB"])})
+    chk.parts["heap"] = {r["name"]: r["growthKB"] for r in rows}
+
+
 def replay(chk, path):
     facts = json.load(open(path))
     binary = vlib.build("root")
+    if facts.get("kind") == "memory-retained":
+        chk.evaluated(key="replay")
+        for r in heap_rows(binary):
+            if r["name"] == facts["heap"]["name"] and r["growthKB"] > r["limitKB"]:
+                chk.violation(dict(facts, replayed=True), replay=path)
+        return
     chk.evaluated(key="replay")
     chk.evaluated(key=facts["case"]["name"])
     g, infl, txt = run_batch(binary, [facts["case"]], serial=True)
